@@ -14,7 +14,7 @@
  *   F <exit> <hexout> <hexerr>      outcome otherwise
  *   NOISE <o|e> <salt> <mod>        append "noise=<h%mod>\n" to stdout/stderr
  *   DELAY <salt> <n> <ms>...        sleep ms[h % n] before answering
- *   FAULT <salt> <mod> <n> <cls>:<kind>...   kind: s(leep) t(sleep, SIGTERM ignored) p(spin) a(lloc) m(map shared) v(segv) k(ill) w(rapper with hanging child) w(rapper with hanging child)
+ *   FAULT <salt> <mod> <n> <cls>:<kind>...   kind: s(leep) t(sleep, SIGTERM ignored) h(print, then hang) p(spin) a(lloc) m(map shared) v(segv) k(ill) w(rapper with hanging child) w(rapper with hanging child)
  *   DIRECTIVE                       (behave <role> <exit> "<out>" "<err>") in the file wins
  * Hex strings may be "-" for the empty string.
  *
@@ -180,6 +180,14 @@ int main(int argc, char **argv) {
     case 'w': { /* wrapper script: the hanging solver is a child that inherits our pipes */
       pid_t c = fork();
       if (c == 0) { execlp("sleep", "sleep", "987654", (char *)NULL); _exit(1); }
+      for (;;) sleep(1000);
+    }
+    case 'h': { /* print the answer - at once, or ORACLE_LATE_MS milliseconds late - and then hang: what a
+                   timed-out run had printed by its deadline is a matter of timing */
+      const char *late = getenv("ORACLE_LATE_MS");
+      if (late) usleep((useconds_t)atoi(late) * 1000);
+      fwrite(o->out, 1, o->outn, stdout); fwrite(o->err, 1, o->errn, stderr);
+      fflush(stdout); fflush(stderr);
       for (;;) sleep(1000);
     }
     case 'p': { volatile unsigned long x = 0; for (;;) x++; }
